@@ -175,3 +175,47 @@ package l1infotreesync
 //@   props C09 C15
 //@   trusted
 //@   sqltext "SELECT num, hash FROM block WHERE num <= $1 ORDER BY num DESC LIMIT 1;"
+
+// ---- decoding the watched L1 logs into events of the block (C11, C05): one event per log; the info-tree update takes
+// both exit roots from the decoded log and the parent hash and timestamp from the block it is in; a verified batch takes
+// the rollup id and exit root from the decoded log (assumed, A4: the generated bindings decode the ABI events;
+// parsedUpdate / parsedVerify observe their answers).
+//@ ghost var parsedUpdate *polygonzkevmglobalexitrootv2.Polygonzkevmglobalexitrootv2UpdateL1InfoTree
+//@ ghost var parsedVerify *polygonrollupmanager.PolygonrollupmanagerVerifyBatches
+//@ ghost var parsedVerifyTA *polygonrollupmanager.PolygonrollupmanagerVerifyBatchesTrustedAggregator
+//@ extern (*github.com/0xPolygon/cdk-contracts-tooling/contracts/pp/l2-sovereign-chain/polygonzkevmglobalexitrootv2.Polygonzkevmglobalexitrootv2Filterer).ParseUpdateL1InfoTree (f, log)
+//@   modifies parsedUpdate
+//@   ensures result1 != nil ==> result0 == nil
+//@   ensures result1 == nil ==> result0 != nil && parsedUpdate == result0
+//@ extern (*github.com/0xPolygon/cdk-contracts-tooling/contracts/fep/etrog/polygonrollupmanager.PolygonrollupmanagerFilterer).ParseVerifyBatches (f, log)
+//@   modifies parsedVerify
+//@   ensures result1 != nil ==> result0 == nil
+//@   ensures result1 == nil ==> result0 != nil && parsedVerify == result0
+//@ extern (*github.com/0xPolygon/cdk-contracts-tooling/contracts/fep/etrog/polygonrollupmanager.PolygonrollupmanagerFilterer).ParseVerifyBatchesTrustedAggregator (f, log)
+//@   modifies parsedVerifyTA
+//@   ensures result1 != nil ==> result0 == nil
+//@   ensures result1 == nil ==> result0 != nil && parsedVerifyTA == result0
+
+//@ func buildAppender$2
+//@   props C11 C05
+//@   requires b != nil && ger != nil
+//@   modifies b.Events, parsedUpdate
+//@   ensures[failed-decode-adds-nothing] result != nil ==> len(b.Events) == old(len(b.Events))
+//@   ensures[one-event-per-log] result == nil ==> len(b.Events) == old(len(b.Events)) + 1 && forall(k, 0, old(len(b.Events)), b.Events[k] == old(b.Events[k]))
+//@   ensures[the-update-carries-the-logs-roots-and-the-blocks-parent-and-time] result == nil ==> typeIs(b.Events[len(b.Events) - 1], Event) && unbox(b.Events[len(b.Events) - 1], Event).UpdateL1InfoTree != nil && unbox(b.Events[len(b.Events) - 1], Event).VerifyBatches == nil && unbox(b.Events[len(b.Events) - 1], Event).UpdateL1InfoTree.BlockPosition == l.Index && unbox(b.Events[len(b.Events) - 1], Event).UpdateL1InfoTree.MainnetExitRoot == hashOf(parsedUpdate.MainnetExitRoot) && unbox(b.Events[len(b.Events) - 1], Event).UpdateL1InfoTree.RollupExitRoot == hashOf(parsedUpdate.RollupExitRoot) && unbox(b.Events[len(b.Events) - 1], Event).UpdateL1InfoTree.ParentHash == b.ParentHash && unbox(b.Events[len(b.Events) - 1], Event).UpdateL1InfoTree.Timestamp == b.Timestamp
+
+//@ func buildAppender$4
+//@   props C11 C05
+//@   requires b != nil && rm != nil
+//@   modifies b.Events, parsedVerify
+//@   ensures[failed-decode-adds-nothing] result != nil ==> len(b.Events) == old(len(b.Events))
+//@   ensures[one-event-per-log] result == nil ==> len(b.Events) == old(len(b.Events)) + 1 && forall(k, 0, old(len(b.Events)), b.Events[k] == old(b.Events[k]))
+//@   ensures[the-verification-carries-the-logs-rollup-and-exit-root] result == nil ==> typeIs(b.Events[len(b.Events) - 1], Event) && unbox(b.Events[len(b.Events) - 1], Event).VerifyBatches != nil && unbox(b.Events[len(b.Events) - 1], Event).UpdateL1InfoTree == nil && unbox(b.Events[len(b.Events) - 1], Event).VerifyBatches.BlockPosition == l.Index && unbox(b.Events[len(b.Events) - 1], Event).VerifyBatches.RollupID == parsedVerify.RollupID && unbox(b.Events[len(b.Events) - 1], Event).VerifyBatches.NumBatch == parsedVerify.NumBatch && unbox(b.Events[len(b.Events) - 1], Event).VerifyBatches.ExitRoot == hashOf(parsedVerify.ExitRoot)
+
+//@ func buildAppender$5
+//@   props C11 C05
+//@   requires b != nil && rm != nil
+//@   modifies b.Events, parsedVerifyTA
+//@   ensures[failed-decode-adds-nothing] result != nil ==> len(b.Events) == old(len(b.Events))
+//@   ensures[one-event-per-log] result == nil ==> len(b.Events) == old(len(b.Events)) + 1 && forall(k, 0, old(len(b.Events)), b.Events[k] == old(b.Events[k]))
+//@   ensures[the-verification-carries-the-logs-rollup-and-exit-root] result == nil ==> typeIs(b.Events[len(b.Events) - 1], Event) && unbox(b.Events[len(b.Events) - 1], Event).VerifyBatches != nil && unbox(b.Events[len(b.Events) - 1], Event).UpdateL1InfoTree == nil && unbox(b.Events[len(b.Events) - 1], Event).VerifyBatches.BlockPosition == l.Index && unbox(b.Events[len(b.Events) - 1], Event).VerifyBatches.RollupID == parsedVerifyTA.RollupID && unbox(b.Events[len(b.Events) - 1], Event).VerifyBatches.NumBatch == parsedVerifyTA.NumBatch && unbox(b.Events[len(b.Events) - 1], Event).VerifyBatches.ExitRoot == hashOf(parsedVerifyTA.ExitRoot)
